@@ -53,7 +53,7 @@ let options_of (a : string array) =
   { o_cuts = zl a.(0); o_nextseq = opt_z a.(1);
     o_qcut = (match ints a.(2) with [] -> None | [x; y] -> Some (z_of_int x, z_of_int y) | _ -> failwith "qcut");
     o_qbase = z1 a.(3); o_adapters = List.map padapter_of (split ';' a.(4)); o_times = nat_of_int (List.hd (ints a.(5)));
-    o_action = action_of (List.hd (ints a.(6))); o_revcomp = b 0; o_poly_a = b 1; o_length = opt_z a.(8); o_trim_n = b 2;
+    o_action = action_of (List.hd (ints a.(6))); o_revcomp = b 0; o_poly_a = b 1; o_poly_t = (Array.length fl > 12 && b 12); o_length = opt_z a.(8); o_trim_n = b 2;
     o_length_tag = (match ints a.(9) with [] -> None | l -> Some (List.map z_of_int l));
     o_strip_suffix = List.map zl (split ';' a.(10)); o_prefix = zl a.(11); o_suffix = zl a.(12); o_zero_cap = b 3;
     o_min_len = opt_z a.(13); o_max_len = opt_z a.(14); o_max_n = opt_z a.(15); o_float_filters = [];
@@ -85,6 +85,25 @@ let value_of s = match ints s with
   | [n] -> VInt (z_of_int n)
   | [m; d] -> VDec (z_of_int m, nat_of_int d)
   | _ -> failwith "value"
+
+(* ---- paired pipeline *)
+let opt_opt_z s = match String.trim s with "" -> None | "N" -> Some None | t -> Some (Some (z_of_int (int_of_string t)))
+let poptions_of (a : string array) =
+  let fl = Array.of_list (ints a.(21)) in
+  { po_base = options_of a; po_cuts2 = zl a.(17);
+    po_qcut2 = (match ints a.(18) with [] -> None | [0] -> Some None | [x; y] -> Some (Some (z_of_int x, z_of_int y)) | _ -> failwith "qcut2");
+    po_adapters2 = List.map padapter_of (split ';' a.(19)); po_length2 = opt_z a.(20);
+    po_pair_adapters = fl.(0) <> 0; po_combinatorial = fl.(1) <> 0; po_untrimmed_paired = fl.(2) <> 0;
+    po_min_len1_absent = fl.(3) <> 0; po_max_len1_absent = fl.(4) <> 0;
+    po_pair_filter = (match ints a.(22) with [] -> None | [0] -> Some PFAny | [1] -> Some PFBoth | _ -> Some PFFirst);
+    po_min_len2 = opt_opt_z a.(23); po_max_len2 = opt_opt_z a.(24) }
+let pair_of s = match String.split_on_char '/' s with [x; y] -> (read_of x, read_of y) | _ -> failwith "pair"
+let s_preport rep =
+  String.concat "|" [
+    String.concat " " (List.map sz [rep.pr_n; rep.pr_bp1; rep.pr_bp2; rep.pr_written; rep.pr_wbp1; rep.pr_wbp2; rep.pr_with1; rep.pr_with2;
+                                    rep.pr_rc; rep.pr_q1; rep.pr_q2; rep.pr_pa1; rep.pr_pa2]);
+    String.concat " " (List.map (fun (c, n) -> sz c ^ ":" ^ sz n) rep.pr_filtered);
+    String.concat "#" (List.map (fun (d, rs) -> sz d ^ "=" ^ String.concat ";" (List.map (fun (x, y) -> s_read x ^ "/" ^ s_read y) rs)) rep.pr_files) ]
 
 let run cmd (a : string array) : string =
   match cmd with
@@ -137,6 +156,7 @@ let run cmd (a : string array) : string =
       (match make_from_spec (zl a.(0)) t g recs with
        | Err -> "Err"
        | Ok l -> String.concat ";" (List.map s_out l))
+  | "ppipeline" -> s_preport (prun_cli (poptions_of a) (List.map pair_of (split ';' a.(16))))
   | "pipeline" -> s_report (run_cli (options_of a) (List.map read_of (split ';' a.(16))))
   | _ -> failwith ("unknown command " ^ cmd)
 
